@@ -487,6 +487,7 @@ pub mod verif_hooks {
     use crate::ir::{Argument, FieldValue, IRFold, LocalField, Operation};
 
     pub use super::dynamic::verif_candidate_from_operation as dynamic_candidate;
+    pub use super::dynamic::verif_resolve_fold_specific_field as fold_specific_candidate;
 
     pub fn static_candidate(
         filters: &[Operation<LocalField, Argument>],
